@@ -161,7 +161,8 @@ pub fn case(ch: &mut Choices, ctx: &CaseCtx) -> CaseOut {
     // host prelude: values on the stack and a variable
     let npre = ch.below(3);
     let pre: String = (0..npre).map(|i| format!("{}", 70 + i)).collect::<Vec<_>>().join(" ");
-    let pre_src = format!("{} 7 var gv", pre);
+    // (words defined outside any block that touch the variable: calling them from a block must be refused too)
+    let pre_src = format!("{} 7 var gv : getgv gv ; : setgv 1 ! gv ; : getgv2 getgv 1 + ; late lategv : uselate lategv ; 5 var lategv", pre);
     if !matches!(guard(|| base.eval(&pre_src)), Ok(Ok(()))) {
         out.fail("prelude failed", pre_src);
         return out;
@@ -334,7 +335,13 @@ pub fn case(ch: &mut Choices, ctx: &CaseCtx) -> CaseOut {
 }
 
 fn sealing(ch: &mut Choices, ctx: &CaseCtx, base: &Xstate, npre: usize, out: &mut CaseOut) {
-    let variants: [(&str, Kind, &str); 12] = [
+    let variants: [(&str, Kind, &str); 18] = [
+        ("#( getgv #)", Kind::ConstContext, "read-variable-through-outer-word"),
+        ("#( getgv2 1 + #)", Kind::ConstContext, "read-variable-through-outer-word"),
+        ("#( 5 setgv #)", Kind::ConstContext, "write-variable-through-outer-word"),
+        ("#( uselate #)", Kind::ConstContext, "read-variable-through-late-word"),
+        ("#( : inner getgv ; inner #)", Kind::ConstContext, "read-variable-through-outer-word"),
+        (": kk #( getgv #) ; kk", Kind::ConstContext, "read-variable-through-outer-word"),
         ("#( drop #)", Kind::Underflow, "pop-outer-stack"),
         ("#( 1 drop drop #)", Kind::Underflow, "pop-outer-stack"),
         ("#( swap #)", Kind::Underflow, "pop-outer-stack"),
